@@ -76,6 +76,9 @@ theorem step_ord {c : Cfg} {σ σ' : RunSt} {g : Ghost} (hc : CfgOK c) (h : FInv
   | produceSame =>
     simp only [opStep, Option.some.injEq] at hs; subst hs
     exact ord_produce hc h ho .ok .same (by decide)
+  | produceCancelled aware =>
+    simp only [opStep, Option.some.injEq] at hs; subst hs
+    exact ord_produce hc h ho (cancelEx c σ.n aware) .real (by decide)
   | restart =>
     -- a clean restart: the ghost keeps `released`, the node sees exactly what the last image showed
     obtain ⟨σ1, h1, hf1⟩ := step_recover h σ.ws.length
